@@ -111,6 +111,10 @@ pub struct Resolver<'ast, 'res> {
     // Track the statement currently being analyzed so local use facts can be attached once.
     current_stmt: Option<StmtId>,
 
+    // Names owned by the function whose return type is being inferred ahead of its body:
+    // its parameters and the variables it has declared so far. They are not in scope yet.
+    own_names: Vec<&'ast str, &'res Arena>,
+
     /// Collection of semantic errors found during analysis
     pub errors: Diagnostics<'res>,
 
@@ -138,6 +142,7 @@ impl<'ast, 'res> Resolver<'ast, 'res> {
             in_loop: 0,
             scope_stack: Vec::new_in(arena),
             current_stmt: None,
+            own_names: Vec::new_in(arena),
             errors: Diagnostics::new(arena),
             facts: ProgramFacts::new(facts_arena),
             optimization_plan: None,
@@ -575,7 +580,8 @@ impl<'ast, 'res> Resolver<'ast, 'res> {
         for _ in 0..pending.len() {
             let mut changed = false;
             for pending_def in &pending {
-                let return_type = self.infer_function_return_type(pending_def.body);
+                let return_type =
+                    self.infer_function_return_type(pending_def.params, pending_def.body);
                 let current_scope = self
                     .function_scopes
                     .last_mut()
@@ -1257,6 +1263,9 @@ impl<'ast, 'res> Resolver<'ast, 'res> {
             Expr::Bool(..) => Some(ValueType::Bool),
             Expr::Array { .. } => Some(ValueType::Array),
             Expr::Index { .. } => Some(ValueType::Dynamic),
+            // A name of the function being typed ahead of its body is not in scope yet and
+            // must not pick up the type of an outer variable that shares it.
+            Expr::Var(v, ..) if self.own_names.contains(v) => Some(ValueType::Dynamic),
             Expr::Var(v, ..) => self.lookup_var_info(v).map(|(t, _)| t),
             Expr::Binary { op, lhs, rhs, .. } => {
                 let l = self.infer_expr_type(lhs)?;
@@ -1362,33 +1371,45 @@ impl<'ast, 'res> Resolver<'ast, 'res> {
         }
     }
 
-    fn infer_function_return_type(&self, body: BlockRef<'ast>) -> ValueType {
+    fn infer_function_return_type(
+        &mut self,
+        params: ParamListRef<'ast>,
+        body: BlockRef<'ast>,
+    ) -> ValueType {
+        self.own_names.clear();
+        self.own_names.extend(params.params.iter().copied());
         let mut return_types = Vec::new_in(self.arena);
-        self.collect_return_types(body, &mut return_types);
+        let always_returns = self.collect_return_types(body, &mut return_types);
+        self.own_names.clear();
 
-        if return_types.is_empty() {
-            return ValueType::Null;
+        // Falling off the end of the body returns null.
+        if !always_returns {
+            return_types.push(ValueType::Null);
         }
 
         let first_type = return_types[0];
         if return_types.iter().all(|t| *t == first_type) { first_type } else { ValueType::Dynamic }
     }
 
+    /// Collects the types of the `return` statements of a block and tells whether every
+    /// path through the block ends in one.
     fn collect_return_types(
-        &self,
+        &mut self,
         block: BlockRef<'ast>,
         return_types: &mut Vec<ValueType, &'res Arena>,
-    ) {
+    ) -> bool {
+        let mut always_returns = false;
         for stmt in block.stmts {
-            self.collect_return_types_from_stmt(stmt, return_types);
+            always_returns |= self.collect_return_types_from_stmt(stmt, return_types);
         }
+        always_returns
     }
 
     fn collect_return_types_from_stmt(
-        &self,
+        &mut self,
         stmt: StmtRef<'ast>,
         return_types: &mut Vec<ValueType, &'res Arena>,
-    ) {
+    ) -> bool {
         // Nested function bodies are intentionally excluded because their returns
         // do not contribute to the enclosing function's signature.
         match stmt {
@@ -1402,20 +1423,25 @@ impl<'ast, 'res> Resolver<'ast, 'res> {
                 } else {
                     return_types.push(ValueType::Null);
                 }
+                true
             }
             Stmt::If { then_b, else_b, .. } => {
-                self.collect_return_types(then_b, return_types);
-                if let Some(eb) = else_b {
-                    self.collect_return_types(eb, return_types);
-                }
+                let then_returns = self.collect_return_types(then_b, return_types);
+                let else_returns =
+                    else_b.is_some_and(|eb| self.collect_return_types(eb, return_types));
+                then_returns && else_returns
             }
             Stmt::Loop { body, .. } => {
+                // The body may not run at all.
                 self.collect_return_types(body, return_types);
+                false
             }
-            Stmt::Block { block, .. } => {
-                self.collect_return_types(block, return_types);
+            Stmt::Block { block, .. } => self.collect_return_types(block, return_types),
+            Stmt::Assign { var, .. } => {
+                self.own_names.push(var);
+                false
             }
-            _ => {}
+            _ => false,
         }
     }
 
